@@ -1,6 +1,7 @@
 SPECIFICATION Spec
 CONSTANTS
   MaxQ = 2
+  TwoPackets = TRUE
   KnownUniverse = {"ptr", "a"}
   Deviations = {"a"}
   QuarterRule = TRUE
